@@ -98,7 +98,7 @@ type execResult struct {
 }
 
 type harness struct {
-	maxBound int // 0 = the tier's bounds; otherwise the highest preemption bound explored for this (long) harness
+	maxBound int // 0 = the tier's bounds; -1 = no preemption at all; otherwise the highest preemption bound explored for this (long) harness
 	name     string
 	// setup returns the thread bodies, objects to mark shared, and a finish function evaluated after the run
 	setup func() (bodies []func(), shared []interface{}, finish func() (obs string, bad string))
@@ -493,7 +493,7 @@ func runC16(c *fw.Ctx) {
 		st := &exploreStats{outcomes: map[string]int{}}
 		completed := -1
 		for _, bnd := range bounds {
-			if h.maxBound > 0 && bnd > h.maxBound {
+			if h.maxBound > 0 && bnd > h.maxBound || h.maxBound < 0 && bnd > 0 {
 				break
 			}
 			before := st.executions
@@ -766,7 +766,7 @@ func runC16(c *fw.Ctx) {
 			h := harness{name: "H3-shared-options " + strings.Join(set, "+")}
 			h.maxBound = 1
 			if len(set) > 2 {
-				h.maxBound = 0 // three long threads: every order of whole parses, no preemption
+				h.maxBound = -1 // three long threads: every order of whole parses, no preemption
 			}
 			h.setup = func() ([]func(), []interface{}, func() (string, string)) {
 				shared := fresh() // one value for all projects of this execution
